@@ -55,6 +55,20 @@ def programs(tier, rnd):
                    lo=[None, 0.5, None], hi=[None, None, 0.5]))
     ps.append(dict(name='int-bounds', kind='milp', n=2, vt='I', c=[-1, -2], rows=[([2, 3], 'le', 7.5)],
                    lo=[-1.5, 0], hi=[2.5, None]))
+    # fractional bounds of integer / binary columns that BIND at the optimum (both rounding directions matter)
+    ps.append(dict(name='int-frac-lb', kind='milp', n=2, vt='I', c=[3, 2], rows=[([1, 1], 'ge', 3.5)],
+                   lo=[1.5, 0.5], hi=[6, 4.4]))
+    ps.append(dict(name='int-frac-ub', kind='milp', n=2, vt='I', c=[-3, -2], rows=[([1, 1], 'le', 7.5)],
+                   lo=[-2.5, 0], hi=[2.5, 3.4]))
+    ps.append(dict(name='bin-frac-lb', kind='milp', n=3, vt='B', c=[4, 1, 2], rows=[([1, 1, 1], 'ge', 1)],
+                   lo=[0.5, None, None], hi=[None, None, 0.5]))
+    ps.append(dict(name='mixed-frac', kind='milp', n=3, vt='M', c=[1, 2, 3], rows=[([1, 1, 1], 'ge', 2.25)],
+                   lo=[0.25, 0.5, 0.5], hi=[3.5, 2.5, None]))
+    # integer AND binary columns in one program, the binaries without any user bound and rewarded for leaving [0, 1]
+    ps.append(dict(name='mixed-free-binary-neg', kind='milp', n=3, vt='M', c=[1, 1, 2], rows=[([1, 1, 2], 'ge', 1.5)],
+                   lo=[0, 0, None], hi=[3, 3, None]))
+    ps.append(dict(name='mixed-free-binary-pos', kind='milp', n=3, vt='M', c=[1, 1, -2], rows=[([1, 1, -1], 'ge', 0.5)],
+                   lo=[0, 0, None], hi=[3, 3, None]))
     ps.append(dict(name='lp-basic', kind='lp', n=3, vt='C', c=[1, 2, -1], rows=[([1, 1, 1], 'ge', 1), ([1, -1, 0], 'eq', 0.5)],
                    lo=[0, -1, None], hi=[None, 2, 3]))
     ps.append(dict(name='lp-infeasible', kind='lp', n=2, vt='C', c=[1, 1], rows=[([1, 1], 'le', -1)], lo=[0, 0], hi=[None, None]))
@@ -310,10 +324,13 @@ def replay(data, verbose=False):
     else:
         status, opt = 'soc', None
     vals = {}
+    points = {}
     for f in IFACES:
         if not supported(p, f):
             continue
         out = solve_in_child(p, f, False, 30)
+        if out is not None and not out.get('err') and out.get('has') and out.get('x') is not None:
+            points[f] = out['x']
         if out is None:
             vals[f] = 'timeout'
         elif out.get('err'):
@@ -326,6 +343,13 @@ def replay(data, verbose=False):
     if verbose:
         print('program %s: exact status %s optimum %s; interfaces: %s' % (p['name'], status, opt, vals))
     v = vals.get(iface)
+    if iface in points and isinstance(v, (float, np.floating)):
+        # the returned vector itself must be a point of the compiled program (rows, bounds, cones, integrality, binary domain)
+        bad = P.check_point(points[iface], tol=Fraction(1, 10 ** 4))
+        if verbose:
+            print('returned vector %s: violations of the compiled program: %s' % ([round(t, 6) for t in points[iface]], bad[:3]))
+        if bad:
+            return True
     if status == 'optimal':
         return not (isinstance(v, (float, np.floating)) and abs(v - float(opt)) <= 1e-5 * (1 + abs(float(opt))))
     if status in ('infeasible', 'unbounded'):
